@@ -293,10 +293,90 @@ def processes(ctx, rounds, nproc):
         ctx.bump("process-rounds")
 
 
+def whole_runs(ctx):
+    """the same clauses through a whole `Lithium.run()`: a failing mkdir stops the run with that error before any test,
+    and a successful run writes its intermediate files only into the tmpN it created (nothing else appears in the
+    working directory or in the system temp directory)"""
+    import tempfile
+
+    from lithium.reducer import Lithium
+    from lithium.strategies import Minimize
+    from lithium.testcases import TestcaseLine
+
+    cwd = os.getcwd()
+    real_mkdir = os.mkdir
+
+    def make(d):
+        path = d / "tc.txt"
+        path.write_bytes(b"a\nb\nc\n")
+        tc = TestcaseLine()
+        tc.load(path)
+        calls = []
+
+        class Test:
+            @staticmethod
+            def interesting(args, prefix):
+                calls.append(prefix)
+                return b"b" in path.read_bytes()
+
+        lith = Lithium()
+        lith.testcase, lith.condition_script, lith.condition_args, lith.strategy = tc, Test, [], Minimize()
+        return lith, calls, path
+
+    try:
+        for code in (None, errno.EACCES, errno.ENOSPC):
+            d = fresh_dir("c20-run")
+            (d / "tmp1").mkdir()
+            (d / "tmp1" / "keep.txt").write_bytes(b"old run")
+            (d / "tmp2").write_bytes(b"a file")
+            os.chdir(d)
+            sys_tmp = set(os.listdir(tempfile.gettempdir()))
+            lith, calls, path = make(d)
+            if code is not None:
+                def bad(p, mode=0o777, *a, code=code, d=d, **k):
+                    # only the working directory refuses new entries (read-only checkout, quota): other places still work
+                    if os.path.dirname(os.path.abspath(str(p))) == str(d):
+                        raise OSError(code, os.strerror(code), str(p))
+                    return real_mkdir(p, mode, *a, **k)
+                os.mkdir = bad
+            try:
+                try:
+                    res = ("ok", lith.run())
+                except BaseException as exc:  # pylint: disable=broad-except
+                    res = ("raise", exc)
+            finally:
+                os.mkdir = real_mkdir
+                os.chdir(cwd)
+            case = dict(fault=None if code is None else errno.errorcode[code], via="Lithium.run")
+            ctx.evaluations += 1
+            ctx.bump("whole-run")
+            new_sys = set(os.listdir(tempfile.gettempdir())) - sys_tmp
+            new_sys = {n for n in new_sys if not n.startswith("lithium-verif-")}
+            for n in new_sys:
+                shutil.rmtree(os.path.join(tempfile.gettempdir(), n), ignore_errors=True)
+            names = sorted(os.listdir(d))
+            untouched = (d / "tmp1" / "keep.txt").read_bytes() == b"old run" and os.listdir(d / "tmp1") == ["keep.txt"] and \
+                (d / "tmp2").read_bytes() == b"a file"
+            if code is not None:
+                if res[0] != "raise" or not isinstance(res[1], OSError) or res[1].errno != code or calls or new_sys or \
+                        names != ["tc.txt", "tmp1", "tmp2"] or not untouched or path.read_bytes() != b"a\nb\nc\n":
+                    ctx.fail("fault-retry", f"run() with mkdir failing ({errno.errorcode[code]}): {res!r}, {len(calls)} tests ran, "
+                             f"working directory {names}, new entries in the system temp directory {sorted(new_sys)}", case)
+            else:
+                if res != ("ok", 0) or names != ["tc.txt", "tmp1", "tmp2", "tmp3"] or not untouched or new_sys or \
+                        any(os.path.normpath(os.path.join(str(d), os.path.dirname(str(pfx)))) != str(d / "tmp3") for pfx in calls):
+                    ctx.fail("sequential", f"run(): {res!r}, working directory {names}, prefixes {calls[:3]}, new entries in the system temp "
+                             f"directory {sorted(new_sys)}", case)
+    finally:
+        os.mkdir = real_mkdir
+        os.chdir(cwd)
+
+
 def run(ctx) -> int:
     proof = common.proof_stage(ctx.pid)
     sequential(ctx)
     faults(ctx)
+    whole_runs(ctx)
     done = True
     for k, sets, limit in ((2, [(), (1,), (1, 2), (2,), (1, 3)], 1000), (3, [(), (1,), (2,), (1, 2)], 6000),
                            (4, [()] + ([(1,)] if ctx.thorough else []), 40000 if ctx.thorough else 4000)):
